@@ -295,3 +295,28 @@ func (c *Ctx) Finish(verifDir string) int {
 }
 
 func round2(f float64) float64 { return float64(int(f*100)) / 100 }
+
+// borrowRule runs another property's rule set in a scratch context and re-registers the
+// obligations of one rule family under this property (a rule that is a necessary condition of
+// two properties is decided once and reported under both).
+func (c *Ctx) borrowRule(run func(*Ctx), fromProp, ruleInfix, asRule string, onlyConstruct func(string) bool) int {
+	sub := NewCtx(c.P, fromProp, c.Tier)
+	run(sub)
+	n := 0
+	for _, o := range sub.Obs {
+		if !strings.Contains(o.Rule, ruleInfix) || strings.Contains(o.Construct, "instance-count") {
+			continue
+		}
+		if onlyConstruct != nil && !onlyConstruct(o.Construct) {
+			continue
+		}
+		n++
+		switch o.Status {
+		case "undecided":
+			c.Undecided(asRule, o.Construct, o.Detail)
+		default:
+			c.Require(asRule, o.Construct, o.Site, o.Want, o.Status != "VIOLATED", o.Detail)
+		}
+	}
+	return n
+}
